@@ -20,6 +20,12 @@ CutCk     == {"ck"}
 \* one representative per way a record acts on Fetcher.data and on the loop
 AlphaStall == {"a15", "ck", "sA", "e1", "eom"}
 CutStall   == {"ck", "eom"}
+\* the naming family (NtsKeGen!Naming)
+AlphaNaming == {"a15", "ck", "sA", "sB", "pA", "pB", "eom"}
+\* who calls FetchData in the generated histories (NtsKeGen!Vias)
+ViasAny     == {"any"}
+ViasMeasure == {"measure"}
+ViasBoth    == {"fetch", "measure"}
 AlphaStallDeep == AlphaStall \cup {"un"}
 CutStallDeep   == CutStall \cup {"un"}
 =============================================================================
